@@ -7,31 +7,73 @@ from ..common import Rng, seed, error_codes
 TYPES_PLAIN = "1:0:1,2:0:2,3:0:3,4:1:1,5:1:2"                 # printed names separate the types
 TYPES_ALIKE = "1:0:5,2:0:5,3:0:5,4:0:5,5:1:5,6:1:5,7:0:6"     # distinct identities that print alike
 
+# type aliases (kind 2) and lists over other entries (kind 3): 4 = alias of 1 printed "N009", 5 = alias of 3 printed "N000",
+# 6 = alias of the alias 4, 7 = list of 2, 8 = alias of 2, 9 = list of the alias 8 (the same type as 7), 10 = alias of the list 7
+TYPES_ALIAS = "1:0:1,2:0:2,3:0:3,4:2:9:1,5:2:0:3,6:2:5:4,7:3:0:2,8:2:7:2,9:3:0:8,10:2:0:7"
+
 CMP_BASE = ["Lid.1", "Lid.2", "Lsym.1", "Lsym.2", "Lint.1", "Lint.2", "Lfloat.1", "Lstr.1", "Lstr.2", "Lchr.1",
             "O10", "O30", "O31", "O157", "O4"]
 CMP_KEYS = {TYPES_PLAIN: CMP_BASE + ["P0.1", "P0.2", "P0.3", "P1.1", "P1.2", "P0.4", "P0.5", "P1.5"],
-            TYPES_ALIKE: CMP_BASE + ["P0.1", "P0.2", "P0.3", "P1.1", "P1.2", "P0.5", "P0.6", "P1.5", "P0.7", "P1.7"]}
+            TYPES_ALIKE: CMP_BASE + ["P0.1", "P0.2", "P0.3", "P1.1", "P1.2", "P0.5", "P0.6", "P1.5", "P0.7", "P1.7"],
+            TYPES_ALIAS: CMP_BASE + ["P0.%d" % i for i in range(1, 11)] + ["P1.%d" % i for i in range(1, 11)]}
+
+
+class TypeTable:
+    """the type table of a request as the specification reads it: `under` is ddptypes.GetUnderlying on identities"""
+    def __init__(self, spec):
+        self.e = {}
+        self.order = []
+        for x in spec.split(","):
+            f = x.split(":")
+            self.e[f[0]] = (f[1], f[2], f[3] if len(f) > 3 else None)
+            self.order.append(f[0])
+
+    def under(self, i):
+        kind, _, target = self.e[i]
+        if kind == "2":
+            return self.under(target)
+        if kind == "3":
+            u = self.under(target)
+            for j in self.order:
+                if self.e[j][0] == "3" and self.under(self.e[j][2]) == u:
+                    return j
+        return i
+
+    def is_list(self, i):
+        return self.e[self.under(i)][0] in ("1", "3")
+
+    def name(self, i):
+        u = self.under(i)
+        kind, n, target = self.e[u]
+        return self.name(target) if kind == "3" else n
+
+    def canon_key(self, k):
+        if k[0] == "P":
+            r, i = k[1:].split(".")
+            return "P%s.%s" % (r, self.under(i))
+        return k
+
+    def canon(self, p):
+        return tuple(self.canon_key(k) for k in p)
 
 
 def lookalike(types, patterns):
     """True iff two patterns differ only in placeholder types that print alike
     (same Referenz flag, list-ness and name, different identity) — the known finding."""
-    t = {}
-    for e in types.split(","):
-        i, l, n = e.split(":")
-        t[i] = (l, n)
+    t = TypeTable(types)
     def canon(p):
         out = []
         for k in p:
             if k[0] == "P":
                 r, i = k[1:].split(".")
-                out.append("P%s.%s.%s" % (r, t[i][0], t[i][1]))
+                out.append("P%s.%s.%s" % (r, t.is_list(i), t.name(i)))
             else:
                 out.append(k)
         return tuple(out)
     seen = {}
     for p in patterns:
         c = canon(p)
+        p = t.canon(p)
         # patterns sharing a prefix position with look-alike params also collide inside one node
         for d in range(1, len(p) + 1):
             key = c[:d]
@@ -47,7 +89,8 @@ def gen_trie_cases(tier, rng):
     head = ["Lid.7", "Lid.8", "O20"]
     npat = 4 if tier == "quick" else 5
     vocabs = [(TYPES_PLAIN, ["P0.1", "P0.2", "P0.3", "P1.1", "P0.4", "P0.5", "Lid.9"]),
-              (TYPES_ALIKE, ["P0.1", "P0.2", "P0.3", "P0.4", "P0.5", "P0.6", "P0.7", "P1.1"])]
+              (TYPES_ALIKE, ["P0.1", "P0.2", "P0.3", "P0.4", "P0.5", "P0.6", "P0.7", "P1.1"]),
+              (TYPES_ALIAS, ["P0.1", "P0.2", "P0.3", "P0.4", "P0.5", "P0.6", "P0.7", "P0.9", "P0.10"])]
     for types, params in vocabs:
         # every set of npat patterns "head param" with the same head, every permutation
         for combo in itertools.combinations(params, npat):
@@ -132,6 +175,26 @@ def program_level(res, harness, tier, rng):
                     "Und kann so benutzt werden:\n\t\"zeige <p>\"\n" % tn)
                 reqs.append({"files": dup, "main": "main.ddp"})
                 meta.append(("duplicate", n, alike, order))
+    # type aliases: a pattern over `Absatz = Text` is the pattern over Text, whatever its siblings and its printed name
+    PRIMS = [("Zahl", "1"), ("Kommazahl", "1,5"), ("Buchstabe", "'a'"), ("Wahrheitswert", "wahr"), ("Text", '"t"')]
+    def fn(name, typ, out):
+        return ("Die Funktion %s mit dem Parameter x vom Typ %s, gibt nichts zurück, macht:\n\tSchreibe \"%s\" auf eine Zeile.\n"
+                "Und kann so benutzt werden:\n\t\"Zeige <x>\"\n\n" % (name, typ, out))
+    combos = []
+    for k in (1, 2, 3, 4):
+        combos += list(itertools.combinations([t for t in PRIMS if t[0] != "Text"], k))
+    for aname, article in (("Absatz", "einen"), ("Mitteltext", "einen"), ("Zeile", "eine")):
+        for sib in combos:
+            for first in ("Text", aname):
+                second = aname if first == "Text" else "Text"
+                head = 'Binde "Duden/Ausgabe" ein.\nWir nennen einen Text auch %s %s.\n\n' % (article, aname)
+                decls = "".join(fn("zeige_%s" % t.lower(), t, t) for t, _ in sib) + fn("zeige_erst", first, "erst")
+                calls = "".join("Zeige %s.\n" % lit for _, lit in sib) + 'Zeige "t".\nDer %s abs_var ist "u".\nZeige abs_var.\n' % (
+                    aname if article == "einen" else "Text")
+                reqs.append({"files": {"main.ddp": head + decls + calls}, "main": "main.ddp"})
+                meta.append(("callable", len(sib) + 1, False, ("type-alias", aname, first) + tuple(t for t, _ in sib)))
+                reqs.append({"files": {"main.ddp": head + decls + fn("zeige_zweit", second, "zweit") + calls}, "main": "main.ddp"})
+                meta.append(("duplicate", len(sib) + 1, False, ("type-alias", aname, first) + tuple(t for t, _ in sib)))
     outs = corr.parse_many(harness, reqs)
     ALIAS_DUP = (error_codes()["SEM_ALIAS_ALREADY_DEFINED"], error_codes()["SEM_ALIAS_ALREADY_TAKEN"])
     res.evaluations += len(reqs)
@@ -161,7 +224,7 @@ def check(res, tier):
     model = corr.build_model()
     # (1) the two predicates, all ordered pairs, both type tables
     lines = []
-    for types in (TYPES_PLAIN, TYPES_ALIKE):
+    for types in (TYPES_PLAIN, TYPES_ALIKE, TYPES_ALIAS):
         for a in CMP_KEYS[types]:
             for b in CMP_KEYS[types]:
                 lines.append("tokcmp %s %s %s" % (types, a, b))
@@ -188,13 +251,14 @@ def check(res, tier):
             ans = x.split(";")
             n = len(pats)
             latest = {}
+            tt = TypeTable(types)
             for j, p in enumerate(pats):
-                latest[tuple(p)] = j + 1
+                latest[tt.canon(p)] = j + 1      # a pattern over an alias of a type is the pattern over that type
             bad = None
             for j, p in enumerate(pats):
                 c = ans[n + j] if n + j < len(ans) else "<missing>"
                 s = ans[2 * n + j] if 2 * n + j < len(ans) else "<missing>"
-                want = latest[tuple(p)]
+                want = latest[tt.canon(p)]
                 if c != "some %d" % want:
                     bad = "pattern %s was inserted (alias %d) but Contains answers '%s'" % (",".join(p), want, c)
                     break
@@ -215,9 +279,9 @@ def check(res, tier):
     res.extra["trie_cases_exhaustive"] = exhaustive
     res.extra["disagreements"] = mism
     res.exhaustive = True
-    res.rule = ("tokcmp: all ordered pairs of %d keys under two type tables (one with look-alike types); trie: every permutation of "
+    res.rule = ("tokcmp: all ordered pairs of %d-%d keys under three type tables (plain, look-alike types, type aliases and lists over aliases); trie: every permutation of "
                 "every %d-subset of placeholder patterns under one head token (exhaustive) + random pattern sets; each case inserts all, "
-                "then Contains and Search each. distinct by request line") % (len(CMP_BASE) + 10, 4 if tier == "quick" else 5)
+                "then Contains and Search each. distinct by request line") % (len(CMP_BASE) + 8, len(CMP_BASE) + 20, 4 if tier == "quick" else 5)
     for i in (3, ncmp + 5, len(lines) - 1):
         res.sample({"request": lines[i], "implementation": a[i], "model": b[i]})
     program_level(res, harness, tier, rng)
